@@ -203,6 +203,7 @@ REAL_REQS = [
     b"/\r\n", b"/testfile.txt\r\n", b"/pygopherd\t$\r\n", b"/1/pygopherd\r\n", b"/0/testfile.txt\t+\r\n", b"GET /testfile.html HTTP/1.0\r\n\r\n",
     b"/python-dev.mbox\r\n", b"/python-dev.mbox|/MBOX-MESSAGE/2\r\n", b"/testdata.zip/pygopherd\r\n", b"/bucktooth\r\n",
     b"GET /wap/pygopherd HTTP/1.0\r\n\r\n", b"/nonexistent\r\n", b"/testfile.txt.gz\t!\r\n", b"/talsample.html.tal\r\n", b"/1/nonexistent\r\n",
+    b"/pygopherd/searchtest.sh\tfirst query\r\n", b"/pygopherd/searchtest.sh\r\n", b"/pygopherd/cgitest.sh\r\n", b"/testfile.pyg\r\n",
 ]
 
 hx.scratch_testdata()
@@ -470,7 +471,7 @@ def obligations(tier, seed):
                       pre=["kind == %d" % ki, "0 <= sidx < %d" % len(MSG_SELS)], timeout=240,
                       desc="mailbox/Maildir message selectors (in range, past the end, zero, negative, malformed; existing, missing and wrong-kind mailboxes) via %s on the real testdata" % KINDS[ki],
                       bounds="%d selectors (symbolic index = solver-driven enumeration)" % len(MSG_SELS), functions=["pygopherd.handlers.mbox.*"]))
-    r1s = range(len(REAL_REQS)) if tier == "thorough" else [3, 4, 0, 8, 7, 13]
+    r1s = range(len(REAL_REQS)) if tier == "thorough" else [3, 4, 0, 8, 9, 13, 15]
     for r1 in r1s:
         obs.append(Ob(id="C03.6-history[%d:%s]" % (r1, REAL_REQS[r1].split(b"\r")[0].decode()), body="harness.C03:body_history", sig="r1: int, r2: int",
                       pre=["r1 == %d" % r1, "0 <= r2 < %d" % len(REAL_REQS)], timeout=300,
